@@ -618,6 +618,29 @@ _CLOSERS = {"macro": "endmacro", "call": "endcall", "set": None, "for": "endfor"
             "trans": "endtrans", "if": "endif", "raw": "endraw"}
 
 
+CONTAINERS = [("for a{i} in x", "endfor"), ("for a{i} in x recursive", "endfor"), ("if a{i}", "endif"),
+              ("with a{i} = 1", "endwith"), ("set s{i}", "endset"), ("filter upper", "endfilter"),
+              ("macro m{i}()", "endmacro"), ("call f()", "endcall"), ("block b{i}", "endblock"),
+              ("autoescape true", "endautoescape")]
+
+
+def nest_products(dl, depth):
+    """Every ordered tuple of `depth` container constructs nested directly in each other
+    (a construct inside itself included), the innermost body printing, assigning and using
+    the special names.  [(family, source)]"""
+    import itertools
+
+    T = lambda c: dl.bs + " " + c + " " + dl.be  # noqa: E731
+    V = lambda c: dl.vs + " " + c + " " + dl.ve  # noqa: E731
+    body = V("a0") + T("set q = a1") + V("q") + V("loop.index if loop is defined") + "x"
+    out = []
+    for combo in itertools.product(range(len(CONTAINERS)), repeat=depth):
+        src = "".join(T(CONTAINERS[c][0].replace("{i}", str(i))) for i, c in enumerate(combo))
+        src += body + "".join(T(CONTAINERS[c][1]) for c in reversed(combo))
+        out.append(("nest-product:" + ">".join(CONTAINERS[c][1][3:] for c in combo), src))
+    return out
+
+
 def corner_cases(dl):
     """[(family, source)] — corner forms wrapped in the config's delimiters,
     both unterminated and closed by the matching end tag."""
